@@ -16,9 +16,9 @@ static CC_Array *A[NSLOT];
 static CC_ArrayIter it;       static int it_slot = -1;
 static CC_ArrayZipIter zit;   static int z1 = -1, z2 = -1;
 
-static int sess_default;   /* the session object was built by cc_array_new (C library allocator triple) */
+static int slot_default[NSLOT];   /* the array in the slot uses the C library allocator triple (built by cc_array_new, or derived from such an array) */
 static int sparse, sweep_now = 1;   /* obs=sparse on the constructor line: no content sweep except in `observe` */
-static void shim_reset(void) { for (int i = 0; i < NSLOT; i++) A[i] = NULL; it_slot = z1 = z2 = -1; sess_default = 0; sparse = 0; sweep_now = 1; }
+static void shim_reset(void) { for (int i = 0; i < NSLOT; i++) A[i] = NULL; it_slot = z1 = z2 = -1; for (int i = 0; i < NSLOT; i++) slot_default[i] = 0; sparse = 0; sweep_now = 1; }
 
 /* fixed callbacks */
 static bool  pred_even(const void *e) { cb_record((void *)e); return VAL(e) % 2 == 0; }
@@ -78,7 +78,7 @@ static void phys(void) {
         if (block_size(a->buffer) < a->capacity * sizeof(void *)) o(" WALK=buf-block-too-small");
         if (a->size > a->capacity) o(" WALK=size-gt-capacity");
         if (block_size(a) != sizeof(CC_Array)) o(" WALK=struct-block");
-        if (sess_default ? (a->mem_alloc != malloc || a->mem_calloc != calloc || a->mem_free != free)
+        if (slot_default[k] ? (a->mem_alloc != malloc || a->mem_calloc != calloc || a->mem_free != free)
                          : (a->mem_alloc != conf_malloc || a->mem_calloc != conf_calloc || a->mem_free != conf_free))
             o(" WALK=allocators-not-inherited");
     }
@@ -94,22 +94,25 @@ static void drop_slot(int k) {
 }
 static void o_out(enum cc_stat st, void *out) { o_stat(st); if (st == CC_OK) o(" out=%llu", VAL(out)); }
 
+/* cc_array_new_conf with the harness allocators and the line's cap= / exp= */
+static enum cc_stat make(Cmd *c, CC_Array **out) {
+    CC_ArrayConf conf; cc_array_conf_init(&conf);
+    conf.capacity = kv_u64(c, "cap", conf.capacity);
+    const char *e = kv_str(c, "exp", NULL);
+    if (e) conf.exp_factor = strtof(e, NULL);
+    conf.mem_alloc = conf_malloc; conf.mem_calloc = conf_calloc; conf.mem_free = conf_free;
+    return cc_array_new_conf(&conf, out);
+}
 static void do_op(Cmd *c) {
     int k = (int)kv_u64(c, "o", 0), to = (int)kv_u64(c, "to", 1);
     if (k < 0 || k >= NSLOT) k = 0;
     if (to < 0 || to >= NSLOT) to = 1;
     if (is_op(c, "new") || is_op(c, "new_default")) {
-        CC_ArrayConf conf; cc_array_conf_init(&conf);
         enum cc_stat st;
         shim_reset();
         if (!strcmp(kv_str(c, "obs", ""), "sparse")) { sparse = 1; sweep_now = 0; }
-        if (is_op(c, "new")) {
-            conf.capacity = kv_u64(c, "cap", conf.capacity);
-            const char *e = kv_str(c, "exp", NULL);
-            if (e) conf.exp_factor = strtof(e, NULL);
-            conf.mem_alloc = conf_malloc; conf.mem_calloc = conf_calloc; conf.mem_free = conf_free;
-            st = cc_array_new_conf(&conf, &A[0]);
-        } else { st = cc_array_new(&A[0]); sess_default = 1; }
+        if (is_op(c, "new")) st = make(c, &A[0]);
+        else { st = cc_array_new(&A[0]); slot_default[0] = 1; }
         if (st != CC_OK) A[0] = NULL;
         o_stat(st);
         obs_all(); o_sep(); phys(); return;
@@ -126,6 +129,15 @@ static void do_op(Cmd *c) {
             drop_slot(i);
         }
         o("st=-"); if (is_op(c, "destroy_cb")) { o(" "); o_cb(); }
+    } else if (is_op(c, "mk_new") || is_op(c, "mk_new_default")) {
+        /* a further, independent array in slot `to` (configured triple / C library triple) */
+        if (A[to]) o("st=- slotbusy");
+        else {
+            CC_Array *r = NULL; int dflt = is_op(c, "mk_new_default");
+            enum cc_stat st = dflt ? cc_array_new(&r) : make(c, &r);
+            if (st == CC_OK) { A[to] = r; slot_default[to] = dflt; }
+            o_stat(st);
+        }
     } else if (is_op(c, "zit_new")) {
         int p = (int)kv_u64(c, "p", 1);
         if (p < 0 || p >= NSLOT || !A[k] || !A[p]) { z1 = z2 = -1; o("st=- noobj"); }
@@ -207,7 +219,7 @@ static void do_op(Cmd *c) {
             else if (is_op(c, "mk_copy_deep")) { st = cc_array_copy_deep(a, cp_plus1000, &r); cb = 1; }
             else if (is_op(c, "mk_filter")) { st = cc_array_filter(a, pred_even, &r); cb = 1; }
             else { o("st=- badop"); goto done; }
-            if (st == CC_OK) A[to] = r;
+            if (st == CC_OK) { A[to] = r; slot_default[to] = slot_default[k]; }
             o_stat(st); if (cb) { o(" "); o_cb(); }
         }
     } else o("st=- badop");
